@@ -58,7 +58,8 @@ def roundtrip(pose):
         pose.write(buf)
     except Exception as e:
         return "write raises %s: %s" % (type(e).__name__, str(e)[:100])
-    PoseHeaderCache.clear_cache()
+    # the header cache is left as the history left it (the pose may itself have come from a read of a file with the same skeleton and other dimensions):
+    # what is read back is the file just written, whatever was read before
     try:
         back = Pose.read(buf.getvalue())
     except Exception as e:
@@ -118,6 +119,10 @@ def choose_op(rng, pose, allow_tf, want=None):
         if sum(len(p) for _, p in comps) > 1: c += ["remove_points"]
         if N >= 2: c += ["normalize"]
         c += ["normalize_distribution"]
+    if want == "select_none":
+        return {"k": "select_frames", "ixs": []}                     # an empty filter: the pose of no frames
+    if F == 0:
+        return {"k": rng.choice(["copy", "slice_step"]), "by": 2} if rng.random() < 0.5 else {"k": "copy"}      # nothing else has a frame to work on
     strict = False
     if want is not None:
         strict = want.endswith("!")
